@@ -63,7 +63,10 @@ def expected_rows(part, rests=False):
         chain_gap = (off - on) != summed          # a tie chain with a gap (importer artefact): its length is not defined by the statement
         if rests:
             off = int(n.end.t)
-        r = {"obj": n, "id": n.id, "onset_div": on, "duration_div": off - on, "voice": n.voice, "staff": n.staff,
+        voice = n.voice
+        if isinstance(voice, str) and voice.strip().lstrip("-").isdigit():
+            voice = int(voice)                      # some importers (music21) keep the voice as text; the array column is an int
+        r = {"obj": n, "id": n.id, "onset_div": on, "duration_div": off - on, "voice": voice, "staff": n.staff,
              "chain_gap": chain_gap and not rests}
         if not rests:
             r["pitch"] = P.midi(n.step, n.alter, n.octave)
